@@ -448,6 +448,8 @@ class _Inliner:
         holder = None
         if isinstance(stmt, ast.Expr) and isinstance(stmt.value, ast.Yield):
             holder = stmt.value
+        elif isinstance(stmt, ast.Expr) and isinstance(stmt.value, ast.Call) and self.helper_for(mod, cls_node, stmt.value) is None:
+            holder = stmt          # parts.append(helper(x)) : the helper call is an argument of an ordinary call
         elif isinstance(stmt, (ast.Return, ast.Assign)):
             holder = stmt
         if holder is None or holder.value is None:
